@@ -60,7 +60,12 @@ def designed(rng, n):
                 ext[code] = rng.choice(genprog.EXT_MODES)
         lines = ['G28', 'G1 X5 Y5 Z0.3 F3000', 'G1 X6 Y5 E0.5', 'G1 X15 Y15 E1']
         rep = rng.choice(pool)
-        seq = [rep] + rng.sample(pool, rng.randint(1, 3)) + [rep] + rng.sample(pool, rng.randint(0, 2))
+        between = rng.sample([c for c in pool if c.split()[0] != rep.split()[0]], rng.randint(1, 3))
+        if rng.random() < 0.6:
+            # the repeated code keeps its last occurrence, a code met in between is kept too: the order of the two in the flushed sequence is at stake
+            ext[rep.split()[0]] = 'last'
+            ext[between[0].split()[0]] = rng.choice(['first', 'merge', 'last'])
+        seq = [rep] + between + [rep] + rng.sample(pool, rng.randint(0, 2))
         if rng.random() < 0.3:
             seq.append(rep)
         e = 1.0
